@@ -556,7 +556,9 @@ pub fn emit_shard_darling_only(recvs: &[Recv], ids: &[usize]) -> String {
         if line.starts_with("#![allow(") {
             // a crate that denies style lints: what the derive adds (locals, helper names) is not the
             // user's spelling and must not be linted as such
-            out.push_str("#![allow(dead_code, unused_variables, unused_mut, unused_imports, clippy::all)]\n#![deny(nonstandard_style)]\n#![allow(non_upper_case_globals)]\n");
+            // (`forbid` rather than `deny` for unused variables: generated code cannot silence the lint
+            // for itself with an `#[allow]` then - it has to have no unused bindings)
+            out.push_str("#![allow(dead_code, unused_mut, unused_imports, clippy::all)]\n#![forbid(unused_variables)]\n#![deny(nonstandard_style)]\n#![allow(non_upper_case_globals)]\n");
             continue;
         }
         if line.starts_with("fn dispatch(") {
